@@ -49,11 +49,17 @@ func TestC06(t *testing.T) {
 		ops := []storeh.Op{storeh.A(1, 2, 3), {Kind: storeh.StopSync, Heights: []uint64{4, 5}}, storeh.A(6), {Kind: storeh.StopSync, Heights: []uint64{7}}}
 		run(storeh.Config{Batch: []int{64, 5}[i%2], Cache: 4, ICache: 4, U: 16, Crash: 4}, len(ops), storeh.Scripted(ops), fmt.Sprintf("stopsync/%d/", i))
 	}
+	// long runs of failing flush commits (a bounded retry loop would give up and drop the batch): the headers
+	// of an Append that returned must still be there when the datastore recovers
+	for i, nf := range []int{8, 9, 13, 21} {
+		ops := []storeh.Op{storeh.A(1, 2, 3), storeh.A(4, 5), storeh.R(), storeh.A(6), storeh.O()}
+		run(storeh.Config{Batch: []int{1, 2, 64, 3}[i], Cache: 4, ICache: 4, U: 16, Crash: 4, FailHdrFrom: i % 2, FailHdrN: nf}, len(ops), storeh.Scripted(ops), fmt.Sprintf("longfail/%d/", nf))
+	}
 	for i := 0; i < n; i++ {
 		cfg := storeh.Config{Batch: []int{1, 2, 3, 5, 64}[rng.Intn(5)], Cache: []int{4, 8, 512}[rng.Intn(3)], ICache: []int{4, 2048}[rng.Intn(2)],
 			U: 16, NH: 0, ProbeEvery: false, Ranges: 0, Crash: crash}
 		if i%3 == 0 { // transient datastore write failures: N consecutive failing flush commits
-			cfg.FailHdrFrom, cfg.FailHdrN = rng.Intn(4), []int{1, 2, 5}[rng.Intn(3)]
+			cfg.FailHdrFrom, cfg.FailHdrN = rng.Intn(4), []int{1, 2, 5, 9, 13}[rng.Intn(5)]
 		}
 		gen := storeh.RandomGen(rng, cfg, storeh.Weights{Append: 62, Delete: 23, Restart: 15, InvalidDelete: 15})
 		run(cfg, 3+rng.Intn(12), gen, "rand/")
